@@ -349,8 +349,13 @@ func checkC17(w *World, r *Report) {
 	for _, q := range []struct {
 		fn   string
 		view *types.Var
-	}{{"(*collection).Contains", rg.services}, {"(*collection).ContainsKeyed", rg.services}, {"(*collection).Count", rg.all}, {"(*collection).ToSlice", rg.all}, {"(*collection).doBuild", rg.all}} {
-		fi := w.MustFn(w.Godi, q.fn)
+	}{{"(*collection).Contains", rg.services}, {"(*collection).ContainsKeyed", rg.services}, {"(*collection).Count", rg.all}, {"(*collection).ToSlice", rg.all}, {"<build>", rg.all}} {
+		var fi *FuncInfo
+		if q.fn == "<build>" {
+			fi = resolveRoles(w).doBuild
+		} else {
+			fi = w.MustFn(w.Godi, q.fn)
+		}
 		reads := false
 		ast.Inspect(fi.Decl.Body, func(x ast.Node) bool {
 			if sel, ok := x.(*ast.SelectorExpr); ok && fieldOf(fi.Pkg.TypesInfo, sel) == q.view {
